@@ -32,6 +32,7 @@ SerTrace(T, v, ctx) ==
     [] T[1] \in {"list", "deque", "vtuple", "seq", "mseq"} -> Flat([i \in DOMAIN v[2] |-> SerTrace(T[2], v[2][i], ctx)])
     [] T[1] = "tuple" -> Flat([i \in DOMAIN T[2] |-> SerTrace(T[2][i], v[2][i], ctx)])
     [] T[1] \in {"dict", "mapping", "odict"} -> Flat([i \in DOMAIN v[2] |-> SerTrace(T[3], v[2][i][2], ctx)])
+    [] T[1] = "rec695" -> SerTrace(T[4], v, ctx)
     [] T[1] \in {"fwd", "tvarc", "tvarb"} -> SerTrace(T[3], v, ctx)
     [] T[1] = "opt" -> IF IsNone(v) THEN <<>> ELSE SerTrace(T[2], v, ctx)
     [] T[1] = "union" -> LET hits == { i \in DOMAIN T[2] : MatchesTag(T[2][i], v) } IN
@@ -56,6 +57,7 @@ DeserTrace(T, cx, j) ==
     [] T[1] \in {"list", "deque", "vtuple", "seq", "mseq"} -> IF j[1] = "list" THEN Flat([i \in DOMAIN j[2] |-> DeserTrace(T[2], cx, j[2][i])]) ELSE <<>>
     [] T[1] = "tuple" -> IF j[1] = "list" THEN Flat([i \in DOMAIN T[2] |-> DeserTrace(T[2][i], cx, j[2][i])]) ELSE <<>>
     [] T[1] \in {"dict", "mapping", "odict"} -> IF j[1] = "dict" THEN Flat([i \in DOMAIN j[2] |-> DeserTrace(T[3], cx, j[2][i][2])]) ELSE <<>>
+    [] T[1] = "rec695" -> DeserTrace(T[4], cx, j)
     [] T[1] \in {"fwd", "tvarc", "tvarb"} -> DeserTrace(T[3], cx, j)
     [] T[1] = "opt" -> IF IsNone(j) THEN <<>> ELSE DeserTrace(T[2], cx, j)
     [] T[1] = "union" -> LET ok == { i \in DOMAIN T[2] : IsOk(Unpack(T[2][i], cx, j)) } IN
